@@ -267,6 +267,12 @@ def pattern_case(ins, rem, probe_every):
     ops.append("count")
     ops.append("walk pre")
     ops.append("walk post")
+    # nested walks on the built tree: every pair of orders, inner walk started at the first,
+    # a middle and the last visit of the outer one
+    if n <= 2000:
+        for oo in ("in", "pre", "post"):
+            for io in ("in", "pre", "post"):
+                ops.append("nwalk %s %s t0 %s" % (oo, io, ",".join(map(str, sorted({0, n // 2, n - 1})))))
     for t, k in enumerate(rem):
         ops.append("rem %d" % k)
         if probe_every and t % probe_every == probe_every - 1:
@@ -364,13 +370,21 @@ def gen_random(rng, nops, krange, stats, stride=1, offset=0, phases=((1.0, 42),)
                 k = rng.below(krange)
             stats["reins_present" if k in T.pos else "reins_absent"] += 1
             emit(t, "reins %d" % key(k))
-        elif r < 90:
+        elif r < 88:
             if T.present and rng.chance(50, 100):
                 k = rng.choice(T.present)
             else:
                 k = rng.below(krange)
             emit(t, "find %d" % key(k))
             stats["find"] += 1
+        elif r < 90:
+            # nested walks: the walker of the outer walk runs complete inner walks (same or other tree)
+            it = t if (not multi or rng.chance(1, 2)) else rng.below(3)
+            n = len(T.present)
+            idxs = sorted(set(rng.below(n + 2) for _ in range(1 + rng.below(3))))
+            emit(t, "nwalk %s %s t%d %s" % (rng.choice(["in", "pre", "post"]), rng.choice(["in", "pre", "post"]),
+                                            it, ",".join(map(str, idxs))))
+            stats["nested_walk_same_tree" if it == t else "nested_walk_other_tree"] += 1
         elif r < 96:
             emit(t, "walk " + rng.choice(["in", "pre", "post"]))
             stats["walk"] += 1
@@ -432,6 +446,86 @@ def random_cases(ck, rng, stats, mult=1):
     return cases
 
 
+def bigtree_sizes(ck):
+    sizes = set()
+    for k in range(2, 15):
+        for d in range(-2, 3):
+            sizes.add((1 << k) + d)
+    # sizes at which ascending insertion is 21+ deep (height = 2*level just below a split cascade)
+    sizes |= {3069, 3070, 3071} | set(range(4092, 4095)) | set(range(6136, 6143)) | set(range(8176, 8191))
+    if not ck.quick():
+        sizes |= {3582, 3838, 12286, 14334, 15358, 16382, 20000, 32766, 32767, 65534}
+    return sorted(n for n in sizes if n >= 1)
+
+
+def bigtree_cases(ck, rng):
+    """build a big tree in one `bulk` op (no per-op dumps), report its height, destroy it with
+    release accounting (number and hash of the released keys = the keys that were in the tree)"""
+    cases = []
+    for n in bigtree_sizes(ck):
+        for kind in ("asc", "desc", "alt", "rnd"):
+            b = "bulk %s %d" % (kind, n) + (" %d" % rng.below(1000000) if kind == "rnd" else "")
+            v = rng.below(4)
+            if v == 0:      # second tree alive, destroy the big one first
+                c = ["t1 bulk asc 9", "t0 " + b, "t0 height", "t0 count", "t0 destroy", "t0 count", "t1 count",
+                     "t1 destroy"]
+            elif v == 1:    # thin it out a little before the destroy
+                c = [b, "height"] + ["rem %d" % (1 + rng.below(n)) for _ in range(5)] + ["height", "destroy", "count"]
+            else:
+                c = [b, "height", "count", "destroy", "count", "height"]
+            cases.append(c)
+    return cases
+
+
+HEIGHT_RE = None
+
+
+def run_bigtrees(ck, hcmd, dcmd, cases, label="big-trees"):
+    """like run_cases_parallel, and collects the heights the implementation reports"""
+    import re
+    rx = re.compile(r"## h=(\d+) n=(\d+) lim=(\d+)")
+    groups = list(vf.chunks(cases, max(1, len(cases) // (NPROC * 3))))
+
+    def work(g):
+        lines = []
+        for c in g:
+            lines.append("#case")
+            lines.extend(c)
+        ok, (rc1, o1, e1, o2) = same(ck, hcmd, dcmd, "\n".join(lines) + "\n")
+        hs = [tuple(map(int, m.groups())) for m in rx.finditer(o1 or "")]
+        return g, (None if ok else diff_kind(o1, o2, rc1)), len(lines), hs
+
+    bad_obs, bad_int = [], []
+    st = ck.cov.setdefault("heights", {"reports": 0, "max_height": 0, "max_height_over_bound": 0.0,
+                                       "bound_reached": 0, "bound_reached_max_n": 0, "deeper_than_20": 0})
+    with ThreadPoolExecutor(NPROC) as ex:
+        for g, kind, nl, hs in ex.map(work, groups):
+            ck.cov["op_lines"] = ck.cov.get("op_lines", 0) + nl
+            ck.count(len(g))
+            for h, n, lim in hs:
+                st["reports"] += 1
+                st["max_height"] = max(st["max_height"], h)
+                if lim:
+                    st["max_height_over_bound"] = max(st["max_height_over_bound"], round(h / lim, 3))
+                    if h == lim:
+                        st["bound_reached"] += 1
+                        st["bound_reached_max_n"] = max(st["bound_reached_max_n"], n)
+                if h > 20:
+                    st["deeper_than_20"] += 1
+            if kind is None:
+                for c in g:
+                    ck.distinct(tuple(c))
+            elif kind == "obs":
+                bad_obs.append(g)
+            else:
+                bad_int.append(g)
+    ck.cov["internal_only_mismatching_jobs"] = ck.cov.get("internal_only_mismatching_jobs", 0) + len(bad_int)
+    for g in bad_obs[:2]:
+        ck.compare_cases(hcmd, dcmd, g, label=label, max_failures=2)
+    if not bad_obs and bad_int and not ck.violations:
+        ck.compare_cases(hcmd, dcmd, min(bad_int, key=lambda g: sum(len(c) for c in g)), label=label, max_failures=1)
+
+
 def finish_counts(ck):
     ck.cov["distinct_nontrivial"] = ck.cov.get("perms_cases", 0) + len(ck._distinct)
 
@@ -461,7 +555,13 @@ def run(ck):
         "n=8 sampled blocks; after each insertion order every key is inserted again with its own linked node "
         "object), executed inside harness and driver and compared by hash of all per-op output "
         "lines, each pair is one distinct case; (2) ascending/descending/alternating insertion x "
-        "ascending/descending/alternating/inside-out removal runs of N keys; (3) random histories over up to three trees alive at once (one without release callback), under "
+        "ascending/descending/alternating/inside-out removal runs of N keys; (2b) big trees built by one `bulk` op (n around every 2^k, k<=14, and the sizes at which ascending "
+        "insertion is 21+ deep; ascending/descending/alternating/pseudo-random insertion), height reported, then "
+        "destroy with release accounting (number + hash of released keys = keys of the tree), the heights seen "
+        "are summarised under coverage.heights (the bound 2*log2(n+1) is reached exactly, e.g. ascending "
+        "n = 2^k-2); nested walks (the walker of an outer walk runs complete inner walks of the same or another "
+        "tree, all 9 order pairs; the model's walks are pure functions, so nesting changes no sequence); "
+        "(3) random histories over up to three trees alive at once (one without release callback), under "
         "three comparator variants incl. one returning exactly INT_MIN/INT_MAX for far-apart keys (small dense, "
         "medium, large) with ~30% no-op inserts/removes, re-inserts of a present key with a fresh node AND with "
         "the node object already linked for it, finds, 3 walk orders, count, destroy. A case is "
@@ -543,9 +643,22 @@ def run(ck):
     if found_concrete(ck):
         return finish_counts(ck)
 
+    # 2b. big trees: height reports and release accounting of destroy
+    t0 = time.time()
+    bt = bigtree_cases(ck, rng)
+    run_bigtrees(ck, hcmd, dcmd, bt)
+    ck.cov["stage_s"]["big_trees"] = round(time.time() - t0, 1)
+    near_pow2 = {(1 << k) + d for k in range(2, 15) for d in range(-2, 3)}
+    ck.cov["big_tree_sizes"] = "n in 2^k-2..2^k+2 (k=2..14) + %s; asc/desc/alt/rnd insertion each" % \
+        [n for n in bigtree_sizes(ck) if n not in near_pow2]
+    ck.sample({"big-tree": bt[len(bt) // 2]})
+    if found_concrete(ck):
+        return finish_counts(ck)
+
     # 3. random histories
     stats = {k: 0 for k in ("ins_new", "ins_dup", "rem_present", "rem_absent", "reins_present", "reins_absent",
-                            "cross_tree_absent_after_present", "mode_sign", "mode_diff", "mode_sat",
+                            "cross_tree_absent_after_present", "nested_walk_same_tree", "nested_walk_other_tree",
+                            "mode_sign", "mode_diff", "mode_sat",
                             "multi_tree_cases", "find", "walk", "count",
                             "destroy", "max_size")}
     t0 = time.time()
